@@ -137,10 +137,12 @@ type caseRun struct {
 type groupT struct {
 	name string
 	run  func(a vh.Args, cs caseSpec) *caseRun
+	l17  func(a vh.Args, cs caseSpec) *caseRun // Lindell17 shard store / reload (keymat_l17.go), ECDSA curves only
+	gen  func(policy string) error             // generates the stored Lindell17 material
 }
 
 func allGroups() []*groupT {
-	return []*groupT{
+	gs := []*groupT{
 		mkGroup("k256", k256.NewCurve(), dklsReload[*k256.Point, *k256.BaseFieldElement, *k256.Scalar]),
 		mkGroup("bls12381g1", bls12381.NewG1(),
 			blsReload[*bls12381.PointG1, *bls12381.BaseFieldElementG1, *bls12381.PointG2, *bls12381.BaseFieldElementG2, *bls12381.GtElement, *bls12381.Scalar]),
@@ -151,6 +153,13 @@ func allGroups() []*groupT {
 		mkGroup("bls12381g2", bls12381.NewG2(),
 			blsReload[*bls12381.PointG2, *bls12381.BaseFieldElementG2, *bls12381.PointG1, *bls12381.BaseFieldElementG1, *bls12381.GtElement, *bls12381.Scalar]),
 	}
+	gs[0].l17 = func(a vh.Args, cs caseSpec) *caseRun {
+		return l17Case[*k256.Point, *k256.BaseFieldElement, *k256.Scalar](k256.NewCurve(), a, cs)
+	}
+	gs[0].gen = func(policy string) error {
+		return genL17[*k256.Point, *k256.BaseFieldElement, *k256.Scalar](k256.NewCurve(), "k256", policy)
+	}
+	return gs
 }
 
 // extra is the group-specific part of the key-material reload check (dkls23 / bls wrappers), nil if none.
@@ -575,9 +584,15 @@ func runCase[E algebra.PrimeGroupElement[E, S], S algebra.PrimeFieldElement[S]](
 	}
 	// ---- P5: store / reload of every serialisable key-material object (keymat.go)
 	env := kmEnv[E, S]{G: G, holders: ids, scheme: scheme}
+	everyHolder := false
+	for _, pt := range l17Policies {
+		if cs.pol.text() == pt && cs.proto != "G" {
+			everyHolder = true
+		}
+	}
 	for pi, id := range ids {
-		if a.Tier != "thorough" && pi != cs.idx%len(ids) {
-			continue // quick tier: one party, rotating with the case index
+		if a.Tier != "thorough" && !everyHolder && pi != cs.idx%len(ids) {
+			continue // quick tier: one party, rotating with the case index (every holder for l17Policies)
 		}
 		sh := rd.shards[id]
 		var other *mpc.BaseShard[E, S]
@@ -589,11 +604,11 @@ func runCase[E algebra.PrimeGroupElement[E, S], S algebra.PrimeFieldElement[S]](
 		var fails []kmFail
 		pn := vh.Safely(func() {
 			fails = baseReload(env, sh, other)
-			wrappers := a.Tier == "thorough" || cs.idx%2 == 0 || extra == nil
+			wrappers := a.Tier == "thorough" || everyHolder || cs.idx%2 == 0 || extra == nil
 			if wrappers {
 				fails = append(fails, schnorrReload(env, sh, other)...)
 			}
-			if extra != nil && (a.Tier == "thorough" || cs.idx%2 == 1) {
+			if extra != nil && (a.Tier == "thorough" || everyHolder || cs.idx%2 == 1) {
 				fails = append(fails, extra(env, sh, other)...)
 			}
 		})
@@ -923,6 +938,19 @@ func buildCases(a vh.Args, groups []*groupT) []caseSpec {
 		add(caseSpec{proto: "C", group: g.name, pol: pol, comp: "-", mode: "rounds", via: "cnf"})
 		add(caseSpec{proto: "D", group: g.name, pol: pol, comp: "-", mode: "rounds", via: "cnf"})
 	}
+	// structures in which some holder has no qualified two-party peer: store / reload of EVERY holder's key
+	// material of every shard type — base / schnorr / dkls23 / bls wrappers on trusted-dealer and Canetti
+	// shards (keymat.go), Lindell17 shards with their auxiliary information (keymat_l17.go)
+	for pi, pt := range l17Policies {
+		pol := parsePolicy(pt)
+		for gi, g := range useGroups {
+			add(caseSpec{proto: "D", group: g.name, pol: pol, comp: "-", mode: "rounds"})
+			if thorough || gi == pi%len(useGroups) {
+				add(caseSpec{proto: "C", group: g.name, pol: pol, comp: "-", mode: "rounds"})
+			}
+		}
+		add(caseSpec{proto: "L", group: "k256", pol: pol, comp: "-", mode: "rounds"})
+	}
 	// Fischlin compilers (expensive provers): small structures
 	small := policy{fam: 'T', t: 2, ids: []uint64{1, 2}}
 	add(caseSpec{proto: "G", group: useGroups[0].name, pol: small.mapIDs(assignIDs(1, 2)), comp: string(fischlin.Name), mode: "rounds"})
@@ -961,6 +989,14 @@ func main() {
 		f, _ := os.Create(pf)
 		pprof.StartCPUProfile(f)
 		defer pprof.StopCPUProfile()
+	}
+	if os.Getenv("C03_GEN_L17") != "" { // (re)generate the stored Lindell17 material: slow
+		for _, pol := range l17Policies {
+			t0 := time.Now()
+			err := allGroups()[0].gen(pol)
+			fmt.Fprintln(os.Stderr, "generated", pol, err, time.Since(t0))
+		}
+		return
 	}
 	res := vh.NewResult("C03", a.Seed, a.Tier)
 	res.Rule = "honest runs of the real Gennaro DKG (Fiat-Shamir, Fischlin, randomised Fischlin), Canetti DKG and trusted dealer, round by round through CBOR (driver packages) and through the runner API over an in-memory delivery; access structures: threshold, unanimity, CNF, hierarchical, threshold-gate trees of sizes 2..4 (quick) / 2..8 (thorough) under three ID assignments (ordinal, sparse unsorted, >= 2^40), plus hierarchical structures with interleaved (non-monotone) IDs incl. arithmetic-progression patterns, which every flavour must refuse at construction; every party (and the dealer) builds its OWN access-structure object for the policy, CNF clause lists in a seeded per-party permutation, incl. CNFs whose maximal unqualified sets differ only in the smallest member and 2-of-n through cnf.ConvertToCNF; groups k256 + BLS12-381 G1 (quick) / all seven (thorough). Model (Dkg.v extracted) gets the recorded tapes and the induced MSP; compared: shares, verification vectors, public key, public shares, Gennaro broadcasts/unicasts, reconstruction over every subset, NewBaseShard on a shifted share. A case is non-trivial when the access structure was accepted and the protocol ran."
@@ -1038,7 +1074,15 @@ func main() {
 					continue
 				}
 				t0 := time.Now()
-				runs[i] = g.run(a, cases[i])
+				if cases[i].proto == "L" {
+					if g.l17 == nil {
+						runs[i] = &caseRun{spec: cases[i], class: "unknown-group"}
+						continue
+					}
+					runs[i] = g.l17(a, cases[i])
+				} else {
+					runs[i] = g.run(a, cases[i])
+				}
 				runs[i].dur = time.Since(t0)
 			}
 		}()
